@@ -54,11 +54,15 @@ func init() {
 		StrPool = append(StrPool, "\\u"+hex, "a\\u"+hex+"b")
 	}
 	StrPool = append(StrPool, "\\n", "\\t", "\\\"", "\\/", "\\b", "\\x41", "\\U0001F600", "<>&", "</script>", "&amp;")
-	KeyPool = append([]string{".", "#", "a.b", "a#1", ".b", "#1", "..", "a.", "a#", "0", "1", "key", "k", "x", "y", "z", "inner", "list", "object", "id", "a", "b", "c"}, StrPool[:60]...)
+	KeyPool = append([]string{".", "#", "a.b", "a#1", ".b", "#1", "..", "a.", "a#", "0", "1", "key", "k", "x", "y", "z", "inner", "list", "object", "id", "a", "b", "c",
+		// keys that collide under case folding / trimming / formatting verbs
+		"ID", "Id", "K", cp(0x212a), "A", "key ", " key", "%", "%s", "%d%%", "100%", "%!s(MISSING)", "%v%v"}, StrPool[:60]...)
+	StrPool = append(StrPool, "%", "%s", "%d", "%%", "50%% off", "%!", "%v", "%[1]s", "%5d", "ID", "id")
 }
 
 // SafeKeys are tree-form friendly (non-empty, no sigils).
-var SafeKeys = []string{"a", "b", "c", "key", "k", "x", "y", "z", "inner", "list", "object", "0", "1", "7", "name", "v a l", "\"q", "é", "-1", "+1", "0x1", "nil"}
+var SafeKeys = []string{"a", "b", "c", "key", "k", "x", "y", "z", "inner", "list", "object", "0", "1", "7", "name", "v a l", "\"q", "é", "-1", "+1", "0x1", "nil",
+	"key ", " key", "K", "ID", "id", "%s", "100%", "a\tb", "a\nb"}
 
 // ---------------------------------------------------------------------------------------------
 // Scalar generators
